@@ -258,3 +258,52 @@ def r16h(chk, rid='R16.h', thorough=False):
     for kind, label in (('accepted', 'every generated selector is accepted'), ('specificity', 'the specificity is the count known by construction'), ('round trip', 'the written selector reparses to the same sequence and is a fixpoint'), ('evaluation', 'every generated selector can be evaluated')):
         b = groups.get(kind, [])
         chk.ob(rid, SEL, 'Selector._setSelectorText', f'{label} ({len(cases)} selectors)', not b, '; '.join(f'{t!r} {w}' for t, w in b[:3]) + f' ({len(b)} selectors)', shape=(kind == 'evaluation'))
+
+
+MALFORMED = ['*|*|*', 'svg|*|*', 'p|*|*', 'a|b|c', 'p|a|b', '*|a|b', '||a', 'a||b', '|', '*|', 'a|', 'p|', '|*|a', '*|*|', '[a|b|c]', '[*|*|a]', '[p|x', '[', '[=]', '[x=]', '[x=y', '[x y]',
+             ':', '::', ':::a', ':not(', ':not()', ':not(a', ':not(:not(a))', ':not(a b)', ':not(p|)', ':lang(', 'a,,b', ',a', 'a,', 'a > > b', '> a', 'a >', 'a +', '~', '#', '.', '..a', 'a..b', '#.a',
+             'a{', 'a}', ')', '(', 'a)', 'a(b)', '"a"', "'", '"', '1a', '-', '--', '@a', 'a@b', '!', 'a!b', '$', 'a$=b', '*|*|*, b', 'e, *|*|*', '*|*|*:hover', 'a *|*|*', '\\', 'a\\']
+
+
+def _malformed_job(args):
+    root, texts = args
+    repo = core_pool_repo(root)
+
+    class _C:  # the slice of the check interface eval_selector uses
+        pass
+
+    c = _C()
+    c.repo = repo
+    out = []
+    for t in texts:
+        for ns in (None, {'p': 'U', 'svg': 'S'}):
+            try:
+                r = eval_selector(c, t, namespaces=ns, log_errors=[])
+            except AnalysisError as e:
+                out.append((t, ns is not None, 'evaluation', str(e)[:120]))
+                continue
+            kind = getattr(r['raised'], 'kind', None)
+            name = kind if isinstance(kind, str) else getattr(kind, '__name__', None) or type(kind).__name__
+            if r['raised'] is not None and name not in ('SyntaxErr', 'NamespaceErr', 'InvalidModificationErr'):
+                out.append((t, ns is not None, 'raised', repr(r['raised'])[:120]))
+            elif r['raised'] is None and r['committed'] and t in ('*|*|*', 'svg|*|*', 'a|b|c', '[a|b|c]', '||a', 'a||b'):
+                out.append((t, ns is not None, 'accepted', str(r['seq'])[:120]))
+    return out
+
+
+def r16i(chk, rid='R16.i'):
+    chk.rule(rid, 'a malformed selector is refused, never a crash, decided by evaluation: Selector._setSelectorText - with the token pre-pass, the real parse loop and the New '
+                  'productions, all evaluated from the source - is run for malformed selector texts (chains of namespace bars such as `*|*|*`, `svg|*|*`, `a|b|c`, `||a`; '
+                  'unclosed and empty attribute selectors, pseudo-classes and negations; stray combinators, commas, brackets, quotes, numbers and delimiters), detached and '
+                  'with a namespace map: the only exceptions that leave it are the DOM errors it reports through the log (SyntaxErr, NamespaceErr, InvalidModificationErr) - '
+                  'a ValueError or IndexError from unpacking or indexing a token would escape parseString and lose the whole sheet instead of one rule')
+    import os
+
+    jobs = min(8, os.cpu_count() or 2)
+    parts = core_pmap(chk.repo, _malformed_job, [(chk.repo.root, MALFORMED[i::jobs]) for i in range(jobs)], jobs)
+    bad = [x for p_ in parts for x in p_]
+    for kind, label in (('raised', 'no malformed selector makes the selector parser raise a non-DOM exception'), ('accepted', 'a chain of namespace bars is not accepted as a selector'),
+                        ('evaluation', 'every malformed selector can be evaluated')):
+        b = [x for x in bad if x[2] == kind]
+        chk.ob(rid, SEL, 'Selector._setSelectorText', f'{label} ({len(MALFORMED)} texts, detached and with a namespace map)', not b,
+               '; '.join(f'{t!r}{" (with namespaces)" if ns else ""}: {w}' for t, ns, _, w in b[:3]) + f' ({len(b)} cases)', shape=(kind == 'evaluation'))
